@@ -48,6 +48,12 @@ Proof.
   intros H. right. apply Rle_trans with (bpow radix2 0); [apply bpow_le; lia|exact H].
 Qed.
 
+Lemma no_underflow_ge_small x : / 1024 <= Rabs x -> no_underflow x.
+Proof.
+  intros H. right. apply Rle_trans with (bpow radix2 (-10)); [apply bpow_le; lia|].
+  change (bpow radix2 (-10)) with (/ 1024). exact H.
+Qed.
+
 Lemma rnd64_fmt x : fmt (rnd64 x).
 Proof. unfold rnd64. apply generic_format_round; [apply FLT_exp_valid; exact P53f|apply valid_rnd_N]. Qed.
 
